@@ -6,6 +6,7 @@ import (
 	"math/big"
 	"sort"
 
+	"github.com/tellor-io/layer/utils"
 	"github.com/tellor-io/layer/x/oracle/types"
 
 	cosmomath "cosmossdk.io/math"
@@ -16,7 +17,8 @@ func (k Keeper) WeightedMedian(ctx context.Context, reports []types.MicroReport,
 	values := make(map[string]cosmomath.LegacyDec)
 
 	for _, r := range reports {
-		val, ok := new(big.Int).SetString(r.Value, 16)
+		// submission validates the value after stripping a 0x/0X prefix but stores it verbatim
+		val, ok := new(big.Int).SetString(utils.Remove0xPrefix(r.Value), 16)
 		if !ok {
 			k.Logger(ctx).Error("WeightedMedian", "error", "failed to parse value")
 			return nil, errors.New("failed to parse value")
